@@ -272,4 +272,39 @@ def transplant(B, gaps, C, atriv=None):
                     pending.extend(gaps[k])
     out.extend(pending)
     out.extend(gaps[len(B)])
+    if changes:
+        out = _drop_stranded_proof_blocks(out, changes)
     return out, changes
+
+
+def _drop_stranded_proof_blocks(out, changes):
+    """A statement-level `proof { .. }` annotation that stood first in the block of a match arm is stranded when the
+    working tree turned that arm into a bare expression (`=> proof { .. } return x,` is no Rust): the annotation goes
+    (reported as dropped), so that Verus decides the changed code instead of stopping at a syntax error."""
+    res = []
+    i, n = 0, len(out)
+    while i < n:
+        t = out[i]
+        if getattr(t, "origin", None) == "annot" and t.kind == "id" and t.text == "proof" and res \
+                and len(res) >= 2 and res[-1].kind == "punct" and res[-1].text == ">" and res[-1].trivia == "" \
+                and res[-2].kind == "punct" and res[-2].text == "=" and getattr(res[-1], "origin", None) != "annot" \
+                and i + 1 < n and out[i + 1].kind == "punct" and out[i + 1].text == "{":
+            depth, j = 0, i + 1
+            while j < n:
+                if out[j].kind == "punct" and out[j].text == "{":
+                    depth += 1
+                elif out[j].kind == "punct" and out[j].text == "}":
+                    depth -= 1
+                    if depth == 0:
+                        break
+                j += 1
+            nxt = out[j + 1] if j + 1 < n else None
+            if j < n and nxt is not None and not (nxt.kind == "punct" and nxt.text in (",", "}")):
+                changes.append(("dropped-annotations", 0, 0, 0, 0))
+                if j + 1 < n:
+                    out[j + 1] = out[j + 1].clone(trivia=" ")
+                i = j + 1
+                continue
+        res.append(t)
+        i += 1
+    return res
